@@ -57,6 +57,7 @@ type schedCfg struct {
 	alignPct         int           // percent of ops that instead wait for the next multiple of alignTo since start (+-1ms/0)
 	alignTo          time.Duration // e.g. the checkpoint ticker's period: requests land while a checkpoint/rotation runs
 	shutdown         bool          // graceful Shutdown at a tape-chosen moment
+	shutAtYield      int           // >0: request it at that scheduling point of the other tasks (else between requests)
 	tail             time.Duration // virtual time to let pass at the end
 	readAllBuckets   bool
 	coldStart        bool
@@ -199,9 +200,20 @@ func runSched(w *Workload, c schedCfg, seed uint64) *schedRun {
 			})
 		}
 		if c.shutdown {
-			// request the graceful shutdown once shutAfter writes have returned
-			for writesDone < shutAfter && !allDone(sr, plans) {
-				simrt.Sleep(time.Duration(1+r.Intn(40)) * time.Millisecond)
+			if c.shutAtYield > 0 {
+				// request the graceful shutdown at the k-th scheduling point of the
+				// clients and the server's own tasks: in the middle of a flush, of a
+				// checkpoint, of a request that has queued its commands ...
+				if simrt.WaitYields(c.shutAtYield, 20*time.Minute) {
+					sr.probes["shutdown-requested-mid-activity"] = 1
+				}
+			} else {
+				// request the graceful shutdown once shutAfter writes have returned
+				// (always at a quiescent instant: the clock only moves when every
+				// task is parked)
+				for writesDone < shutAfter && !allDone(sr, plans) {
+					simrt.Sleep(time.Duration(1+r.Intn(40)) * time.Millisecond)
+				}
 			}
 			shutting = true
 			fs.Marker("shutdown-requested")
@@ -709,7 +721,9 @@ func writeEntirelyBefore(sr *schedRun, key string, t, got int64, op *schedOp) bo
 				}
 				for _, rc := range p.Recs {
 					if rc.ID == got && IntervalStart(rc.T, p.B.TFDur()) == t {
-						return x.ret < op.inv
+						// a request that never returned (ret == 0) is concurrent with
+						// everything issued after it
+						return x.ret != 0 && x.ret < op.inv
 					}
 				}
 			}
